@@ -22,7 +22,7 @@ import threading
 import time
 import warnings
 
-from .common import Check, Err, cN, cZ, cbool, clist, cnat, copt, cpair
+from .common import Check, Err, cN, cZ, cbool, clist, cnat, copt, cpair, cval
 
 IMPORTS = ("From Coq Require Import List NArith ZArith Bool.\n"
            "From Verif Require Import Base.Val C41.Lts C41.Model_C41 C41.Spec_C41.")
@@ -48,7 +48,7 @@ class Recorder:
         self.widx = {}         # thread ident -> worker index
 
 
-def make_shims(rec, sentinel):
+def make_shims(rec):
     import queue as _q
 
     class RecQueue(_q.Queue):
@@ -95,8 +95,9 @@ def make_shims(rec, sentinel):
 
     class QMod:
         Queue = RecQueue
-        Empty = _q.Empty
-        Full = _q.Full
+
+        def __getattr__(self, name):
+            return getattr(_q, name)
 
     class TMod:
         Thread = RecThread
@@ -141,10 +142,38 @@ def pause(kind):
             pass
 
 
-def make_functor(case, rec):
+UNK = 999999     # id given to an object that is not an input item (the model has no such item)
+
+
+class Opaque:
+    """an input item that is just an object"""
+
+    def __init__(self, name):
+        self.name = name
+
+    def __repr__(self):
+        return f"<obj {self.name}>"
+
+
+_L1A, _L1B = [1], [1]            # equal, not identical
+OBJ_REGISTRY = {"None": None, "0": 0, "''": "", "False": False, "()": (), "0.0": 0.0, "'a'": "a",
+                "obj_a": Opaque("a"), "obj_b": Opaque("b"), "[1]#a": _L1A, "[1]#b": _L1B,
+                "b''": b"", "frozenset()": frozenset()}
+
+
+def case_objects(case):
+    """the actual python objects fed to map_async: item id -> object (default: the int itself).
+    Items are told apart by IDENTITY (0, False and 0.0 are three different items)."""
+    spec = case.get("objspec") or {}
+    tab = {i: (OBJ_REGISTRY[spec[i]] if i in spec else i) for i in set(case["items"])}
+    return [tab[i] for i in case["items"]], {id(o): i for i, o in tab.items()}
+
+
+def make_functor(case, rec, idmap):
     tab, delays, mode = case["tab"], case["delays"], case["mode"]
 
-    def body(x):
+    def body(obj):
+        x = idmap.get(id(obj), UNK)
         d = delays.get(x, (0, 0))
         pause(d[0])
         rec.ev.append(("proc", threading.get_ident(), x))
@@ -173,22 +202,26 @@ def make_functor(case, rec):
 
 
 def run_case(case):
-    """Run map_async once; returns dict(trace=[label tuples] | None, outcome=..., hang=bool, bad=str|None)."""
+    """Run map_async once and turn the recorded events into LTS labels.
+
+    Which queue entries are end-of-work markers is decided by POSITION, not by what the marker
+    object is: the feeder's first len(items) puts must be the input objects in order (LPut), every
+    later put is a marker (LSent); the k-th get returns the k-th put (queue.Queue is FIFO)."""
     from pkgcore.util import thread_pool
-    from snakeoil.klass import sentinel
 
     rec = Recorder()
-    qmod, tmod = make_shims(rec, sentinel)
+    qmod, tmod = make_shims(rec)
     items = case["items"]
+    objs, idmap = case_objects(case)
     if case["shape"] == "list":
-        iterable = list(items)
+        iterable = list(objs)
     elif case["shape"] == "tuple":
-        iterable = tuple(items)
+        iterable = tuple(objs)
     elif case["shape"] == "nolen":
-        iterable = NoLen(items, case["raises"])
+        iterable = NoLen(objs, case["raises"])
     else:
-        iterable = WithLen(items, case["raises"], case["len"])
-    functor = make_functor(case, rec)
+        iterable = WithLen(objs, case["raises"], case["len"])
+    functor = make_functor(case, rec, idmap)
     kw = {}
     if case["threads"] is not None:
         kw["threads"] = case["threads"]
@@ -201,21 +234,27 @@ def run_case(case):
             box["exc"] = "IterBoom"
         except BaseException as e:  # noqa: BLE001
             box["exc"] = type(e).__name__
+            box["exc_msg"] = str(e)[:300]
         rec.ev.append(("ret", threading.get_ident(), None))
 
-    old = (thread_pool.queue, thread_pool.threading)
-    thread_pool.queue, thread_pool.threading = qmod, tmod
+    saved = {n: getattr(thread_pool, n) for n in ("queue", "threading") if hasattr(thread_pool, n)}
+    for n, m in (("queue", qmod), ("threading", tmod)):
+        if n in saved:
+            setattr(thread_pool, n, m)
     try:
         t = threading.Thread(target=call, daemon=True)
         t.start()
         t.join(HANG_S)
         hang = t.is_alive()
     finally:
-        thread_pool.queue, thread_pool.threading = old
+        for n, m in saved.items():
+            setattr(thread_pool, n, m)
     main_id = t.ident
     ev = list(rec.ev)
     out = {"hang": hang, "bad": None, "nthreads": rec.nthreads, "ev_n": len(ev)}
-    labels = []
+    if len(saved) < 2:
+        out["bad"] = "thread_pool no longer uses the queue/threading modules (cannot observe it)"
+    labels, put_labels, nget = [], [], 0
     for kind, tid, arg in ev:
         w = rec.widx.get(tid)
         if kind in ("start", "put", "kill", "join", "ret"):
@@ -226,7 +265,19 @@ def run_case(case):
             elif kind == "join":
                 labels.append(("LJoin", arg))
             elif kind == "put":
-                labels.append(("LSent",) if arg is sentinel else ("LPut", arg))
+                n = len(put_labels)
+                if n < len(items):
+                    if arg is objs[n]:
+                        lab = ("LPut", items[n])
+                    else:
+                        lab = ("LPut", UNK)
+                        out["bad"] = f"put #{n} is not input item #{n}"
+                else:
+                    lab = ("LSent",)
+                    if id(arg) in idmap:
+                        out["marker_is_an_item"] = True
+                put_labels.append(lab)
+                labels.append(lab)
             elif kind == "kill":
                 labels.append(("LKill",))
             else:
@@ -238,12 +289,17 @@ def run_case(case):
             if kind == "chk":
                 labels.append(("LChk", w, bool(arg)))
             elif kind == "get":
-                labels.append(("LGet", w, None if arg is sentinel else arg))
+                src = put_labels[nget] if nget < len(put_labels) else ("LPut", UNK)
+                nget += 1
+                labels.append(("LGet", w, None if src[0] == "LSent" else src[1]))
             else:
                 labels.append(("LProc", w, arg))
     out["trace"] = labels
     out["handled"] = [a for k, _, a in ev if k == "proc"]
+    if UNK in out["handled"]:
+        out["bad"] = "the functor was handed an object that is not an input item"
     out["exc"] = box.get("exc")
+    out["exc_msg"] = box.get("exc_msg")
     out["ret"] = box.get("ret")
     return out
 
@@ -312,7 +368,7 @@ def c_cfg(case, cpu):
 
 # --------------------------------------------------------------------------- model of the statement (python side of B)
 def eff_workers(case, cpu):
-    p = cpu if case["threads"] is None else case["threads"]
+    p = max(cpu if case["threads"] is None else case["threads"], 1)
     if case["shape"] in ("list", "tuple"):
         p = max(min(len(case["items"]), p), 0)
     elif case["shape"] == "withlen":
@@ -324,18 +380,22 @@ def n_die(case):
     return sum(1 for x in case["items"] if case["tab"].get(x) == "die")
 
 
-def in_class_no_workers(case, cpu=None):
-    """known class: the pool is created with zero workers although there are items"""
-    import multiprocessing
-    return eff_workers(case, cpu or multiprocessing.cpu_count()) == 0 and len(case["items"]) > 0
-
-
 def in_class_worker_death(case, cpu=None):
     """known class: the functor raises in a worker thread (at least one poison item); items are lost
     only when there are at least as many poison items as workers, a return value with any death"""
     import multiprocessing
     w = eff_workers(case, cpu or multiprocessing.cpu_count())
     return w >= 1 and n_die(case) >= 1
+
+
+def describe(case):
+    """the concrete input, for reports: ids as given to the model plus the python objects"""
+    d = {k: v for k, v in case.items() if k != "delays"}
+    try:
+        d["item_objects"] = [repr(o) for o in case_objects(case)[0]]
+    except Exception:  # noqa: BLE001
+        pass
+    return d
 
 
 def expected_results(case):
@@ -358,7 +418,7 @@ def oracle(case, run, cpu):
                 return {"what": "an item was handled more often than it occurs", "item": x}
         return None
     if run["exc"] is not None:
-        return {"what": "map_async raised", "got": run["exc"]}
+        return {"what": "map_async raised", "got": run["exc"], "message": run.get("exc_msg")}
     handled, want = sorted(run["handled"]), sorted(case["items"])
     if handled != want:
         missing = list(want)
@@ -418,7 +478,23 @@ def gen_case(rng, big, kind):
         case["threads"] = rng.choice([0, 0, -1, -3])
     elif kind == "lyinglen":
         case["shape"] = "withlen"
-        case["len"] = rng.choice([0, 1, n, n + 2, max(n - 1, 0)])
+        # a len() that is wrong but not 0 while there are items (len 0 with items is the caller's bug)
+        case["len"] = rng.choice([1, n, n + 2, max(n - 1, 1)]) if n else rng.choice([0, 1, 2])
+    elif kind == "odd":
+        # "any input sequence": None, falsy values, equal-but-not-identical and repeated objects
+        names = list(OBJ_REGISTRY)
+        rng.shuffle(names)
+        ids = sorted(set(items))
+        spec = {}
+        if ids:
+            spec[rng.choice(ids)] = "None"            # None is (nearly) always among the items
+        for i in ids:
+            if i not in spec and rng.random() < 0.6:
+                cand = [nm for nm in names if nm not in spec.values()]
+                if cand:
+                    spec[i] = cand[0]
+        case["objspec"] = spec
+        case["threads"] = rng.choice([1, 1, 2, 2, 3, None])
     case["delays"] = {x: (rng.choice([0, 0, 1, 1, 2, 3]), rng.choice([0, 0, 1, 2, 3])) for x in set(items)}
     return case
 
@@ -429,6 +505,7 @@ def main(chk: Check):
 
     chk.rule("random item lists (0..10 items, quick; up to 30 thorough; with and without duplicates), "
              "threads in {None,1..12} and {0,-1,-3}, list/tuple/length-less/lying-len/raising iterables, "
+             "items that are None / 0 / '' / False / () / equal-but-distinct and repeated objects, "
              "generator / value-returning / None-returning functors whose body sleeps or spins at "
              "generator-chosen points, poison items that make the functor raise; every call runs real "
              "threads under sys.setswitchinterval(1e-6); non-trivial = a call with >=2 workers and >=2 "
@@ -442,7 +519,7 @@ def main(chk: Check):
     rng = chk.rng
 
     plan = ([("plain", chk.n(150, 900)), ("die", chk.n(50, 300)), ("raise", chk.n(36, 200)),
-             ("nothreads", chk.n(12, 60)), ("lyinglen", chk.n(16, 60))])
+             ("nothreads", chk.n(12, 60)), ("lyinglen", chk.n(16, 60)), ("odd", chk.n(40, 300))])
     cases = []
     for kind, n in plan:
         for _ in range(n):
@@ -456,6 +533,15 @@ def main(chk: Check):
                     corner.append(("corner", {"items": items, "mode": mode, "tab": {x: [100 + x] for x in items},
                                               "threads": threads, "shape": shape, "raises": False, "len": None,
                                               "delays": {}}))
+    for threads in (1, 2, 3):
+        for items, spec in (([1], {1: "None"}), ([1, 2, 3, 4], {1: "None"}), ([2, 3, 1, 4, 5], {1: "None"}),
+                            ([1, 1, 1, 2, 3], {1: "None"}), ([1, 2, 3, 4], {1: "0", 2: "''", 3: "False", 4: "None"}),
+                            ([1, 2, 1, 2, 3], {1: "[1]#a", 2: "[1]#b", 3: "obj_a"}),
+                            ([1, 2, 3], {1: "0", 2: "False", 3: "0.0"})):
+            for shape in ("list", "nolen"):
+                corner.append(("corner-odd", {"items": items, "mode": "gen", "tab": {x: [100 + x] for x in items},
+                                              "threads": threads, "shape": shape, "raises": False, "len": None,
+                                              "delays": {}, "objspec": spec}))
     rng.shuffle(cases)          # every kind early (the quick tier may stop on a wall-clock limit)
     cases = corner + cases
 
@@ -472,37 +558,50 @@ def main(chk: Check):
             if not chk.thorough and time.time() - t_start > 40:
                 chk.note("quick tier: trace generation stopped after 40 s wall (machine load); cases run: %d" % len(coq_cases))
                 break
-            run = run_case(case)
             chk.count("trace")
             kinds_seen[kind] = kinds_seen.get(kind, 0) + 1
-            bad = oracle(case, run, cpu)
-            if run["bad"]:
-                bad = bad or {"what": run["bad"]}
-            if bad is not None:
-                prop_bad.append((case, run, bad))
-            if run["hang"]:
-                hung = True
-                break           # stuck daemon threads: stop generating, report
-            tr = run["trace"]
-            workers_in_trace = [l[1] for l in tr if l[0] in ("LGet", "LProc", "LChk")]
-            switches = sum(1 for a, b in zip(workers_in_trace, workers_in_trace[1:]) if a != b)
-            if run["nthreads"] >= 2 and len(case["items"]) >= 2 and switches >= 2:
-                chk.nontrivial((tuple(case["items"]), case["threads"], case["mode"], case["shape"],
-                                tuple(c_label(l) for l in tr)))
-            if run["exc"] == "IterBoom":
-                impl = [True, sorted(run["handled"]), []]
-            elif run["exc"] is not None:
-                impl = Err(run["exc"])
-            else:
-                ret = run["ret"]
+            try:
+                run = run_case(case)
                 try:
-                    impl = [False, sorted(run["handled"]), sorted(ret)]
-                except TypeError:
-                    impl = Err("unsortable-results")
-            coq_cases.append((cpair(c_cfg(case, cpu), c_trace(tr)), impl, case))
-            if len(chk.cov["samples"]) < 3 and kind in ("plain", "die", "raise") and len(tr) > 12:
-                chk.sample({"stream": "trace", "kind": kind, "case": {k: v for k, v in case.items() if k != "delays"},
-                            "trace": [c_label(l) for l in tr][:60], "impl": impl})
+                    bad = oracle(case, run, cpu)
+                except Exception as e:  # noqa: BLE001 - e.g. results of an unexpected shape
+                    bad = {"what": "map_async returned something the statement's oracle cannot read: %r" % (e,),
+                           "returned": repr(run.get("ret"))[:300]}
+                if run["bad"]:
+                    bad = bad or {"what": run["bad"]}
+                if bad is not None:
+                    prop_bad.append((case, run, bad))
+                if run["hang"]:
+                    hung = True
+                    break           # stuck daemon threads: stop generating, report
+                tr = run["trace"]
+                workers_in_trace = [l[1] for l in tr if l[0] in ("LGet", "LProc", "LChk")]
+                switches = sum(1 for a, b in zip(workers_in_trace, workers_in_trace[1:]) if a != b)
+                if run["nthreads"] >= 2 and len(case["items"]) >= 2 and switches >= 2:
+                    chk.nontrivial((tuple(case["items"]), case["threads"], case["mode"], case["shape"],
+                                    tuple(c_label(l) for l in tr)))
+                if kind in ("odd", "corner-odd") and "None" in (case.get("objspec") or {}).values():
+                    chk.cov["cases_with_None_item"] = chk.cov.get("cases_with_None_item", 0) + 1
+                if run["exc"] == "IterBoom":
+                    impl = [True, sorted(run["handled"]), []]
+                elif run["exc"] is not None:
+                    impl = Err(run["exc"])
+                else:
+                    ret = run["ret"]
+                    try:
+                        impl = [False, sorted(run["handled"]), sorted(ret)]
+                        cval(impl)
+                    except (TypeError, ValueError):
+                        impl = Err("uncanonical-results")
+                coq_cases.append((cpair(c_cfg(case, cpu), c_trace(tr)), impl, case))
+                if len(chk.cov["samples"]) < 3 and kind in ("plain", "die", "raise", "odd") and len(tr) > 12:
+                    chk.sample({"stream": "trace", "kind": kind, "case": describe(case),
+                                "trace": [c_label(l) for l in tr][:60], "impl": impl})
+            except Exception:  # noqa: BLE001 - never a harness exception: report the concrete input
+                import traceback
+                prop_bad.append((case, {"hang": False, "bad": "unobservable", "trace": []},
+                                 {"what": "the implementation behaved in a way the recorder cannot follow",
+                                  "traceback": traceback.format_exc()[-1500:]}))
     finally:
         sys.setswitchinterval(old_si)
         threading.excepthook = old_hook
@@ -518,7 +617,12 @@ def main(chk: Check):
                 for ln in ([None] if shape != "withlen" else [0]):
                     case = {"items": list(range(1, n + 1)), "mode": "retnone", "tab": {}, "threads": threads,
                             "shape": shape, "raises": False, "len": ln, "delays": {}}
-                    run = run_case(case)
+                    try:
+                        run = run_case(case)
+                    except Exception as e:  # noqa: BLE001
+                        prop_bad.append((case, {"hang": False, "bad": "unobservable", "trace": []},
+                                         {"what": "the implementation behaved in a way the recorder cannot follow: %r" % (e,)}))
+                        continue
                     if run["hang"]:
                         hung = True
                         prop_bad.append((case, run, {"what": "map_async did not return (deadlock)"}))
@@ -556,13 +660,11 @@ def main(chk: Check):
     for case, run, bad in prop_bad:
         cls = None
         if not run["hang"] and not run["bad"] and not case["raises"] and run["exc"] is None:
-            if in_class_no_workers(case, cpu):
-                cls = "no-workers"
-            elif in_class_worker_death(case, cpu) and (
+            if in_class_worker_death(case, cpu) and (
                     (bad.get("kind") == "items" and n_die(case) >= eff_workers(case, cpu))
                     or (bad.get("kind") == "results" and case["mode"] == "retlist")):
                 cls = "worker-death"
-        detail = {"what": bad["what"], "input": {k: v for k, v in case.items() if k != "delays"},
+        detail = {"what": bad["what"], "input": describe(case),
                   "observed": bad, "trace": [c_label(l) for l in (run.get("trace") or [])][:200]}
         if cls is not None and chk.known_finding(cls, detail):
             continue
@@ -594,6 +696,8 @@ def replay(chk, data):
         print("replay: no structured input recorded")
         return
     case["tab"] = {int(k): v for k, v in case["tab"].items()}
+    case["objspec"] = {int(k): v for k, v in (case.get("objspec") or {}).items()}
+    case.pop("item_objects", None)
     case["delays"] = {}
     sys.setswitchinterval(1e-6)
     threading.excepthook = lambda a: None
